@@ -50,7 +50,10 @@ def cases(rng, n, Trange=(1000.0, 30000.0), Prange=(1e3, 1e7), kinds=None):
     out = []
     for _ in range(n):
         sps, x0, kind = gen.rand_mixture_spec(rng, rng.choice(kinds) if kinds else None)
-        out.append((sps, x0, gen.log_uniform(rng, *Trange), gen.log_uniform(rng, *Prange), kind))
+        # now and then a temperature from a small grid, so that different species of the same name meet at the same T
+        grid = [t for t in (1500.0, 3000.0, 4000.0, 6000.0, 10000.0, 15000.0, 20000.0) if Trange[0] <= t <= Trange[1]]
+        T = rng.choice(grid) if (grid and rng.random() < 0.3) else gen.log_uniform(rng, *Trange)
+        out.append((sps, x0, T, gen.log_uniform(rng, *Prange), kind))
     return out
 
 
